@@ -4,6 +4,7 @@ go 1.13
 
 require (
 	github.com/asticode/go-astisub v0.0.0
+	github.com/asticode/go-astits v1.8.0
 	golang.org/x/net v0.0.0-20200904194848-62affa334b73
 )
 
